@@ -4,7 +4,7 @@ import os, re, json, time, random, shutil, glob
 from common import *
 
 KQ = os.path.join(VERIF, "kq")
-KQB = os.path.join(BUILD, "kq")
+KQB = os.environ.get("VERIF_KQ_BUILD", os.path.join(BUILD, "kq"))   # scratch build of the copied backend
 KQ_SRC = os.environ.get("VERIF_KQ_SRC", REPO)          # tree the backend is copied from (mutation experiments point this elsewhere)
 COPIED = ["backend_kqueue.go", "fsnotify.go", "shared.go", "system_bsd.go"]
 
@@ -538,6 +538,8 @@ def features(steps):
         if w[0] == "fs" and len(w) >= 3:
             p = w[-1]
             par = os.path.dirname(p) or "."
+            if holding and p in renamed_away and w[1] in ("mkfifo", "symlink", "mkdir", "link"):
+                f.add("rename-then-recreate-in-burst")
             if w[1] == "mkfifo":
                 kinds.setdefault(p, "p")
                 entry(p)
@@ -564,6 +566,8 @@ def features(steps):
                 for q in (a, b):
                     if kinds.get(q) == "l" and (os.path.dirname(q) or ".") in adddirs:
                         f.add("symlink-entry")
+                if holding and b in renamed_away:
+                    f.add("rename-then-recreate-in-burst")
                 if holding:
                     renamed_away.add(a)
                 move(a, b)
